@@ -1,61 +1,88 @@
 /- REGENERATED from /repo on every run by /verif/harness/cmd/extract — do not edit. -/
 namespace Ibx.Gen.Retention
 
-/-- right-hand side of `cutoff :=` in DoScan -/
-def cutoffExpr : Option String := some "time.Now().Add(-1 * rs.retentionPeriod)"
+/-- DoScan, its visitor callback, Start and Join were found and contain no goto / fallthrough / type switch (the path conditions below are then exact) -/
+def flowRecognised : Bool := true
 
-/-- how DoScan calls VisitMailboxes -/
-def visitCall : String := "err := rs.ds.VisitMailboxes"
+/-- the value the removal guard compares dates with, followed through locals / helper parameters: nowMinusPeriod = time.Now().Add(e) with e one of -1*f, f*-1, -f for a scanner field f; nowPlusPeriod = Add(f); unknown -/
+def cutoffShape : String := "nowMinusPeriod"
 
-/-- the statement right after the VisitMailboxes call -/
-def visitErrCheck : Option String := some "if err != nil { return err }"
+/-- that time.Now() is evaluated once per DoScan, outside the visitor callback -/
+def cutoffAtScanLevel : Bool := true
 
-/-- the loop of the callback over its argument -/
-def rangeLoop : Option String := some "for _, msg := range messages"
+/-- the field f of the cutoff is the field the constructor initialises from <config>.RetentionPeriod -/
+def cutoffIsConfigPeriod : Bool := true
 
-/-- condition of the `if` whose then-branch calls RemoveMessage -/
-def removeGuard : Option String := some "msg.Date().Before(cutoff)"
+/-- calls of VisitMailboxes in DoScan (unexported helpers followed) -/
+def visitCalls : Nat := 1
 
-/-- the RemoveMessage call of the callback -/
-def removeCall : Option String := some "rs.ds.RemoveMessage(msg.Mailbox(), msg.ID())"
+/-- DoScan returns the error VisitMailboxes returned, under exactly the condition `that error != nil` (or returns the call itself) -/
+def visitErrPropagated : Bool := true
 
-/-- number of RemoveMessage calls in the callback -/
+/-- rangeOverSnapshot: the unique RemoveMessage call sits in exactly one loop, a `range` with a value variable over the callback's own parameter, reached unconditionally -/
+def sweepLoop : String := "rangeOverSnapshot"
+
+/-- statements in the body of that loop that leave it (return, break out of it, goto, continue of an outer loop) -/
+def sweepLoopExits : Nat := 0
+
+/-- the whole path condition of the RemoveMessage call inside the loop body, if it is one Before/After comparison of <loop message>.Date() with the cutoff: dateBeforeCutoff (d.Before(c) or c.After(d)) | dateNotAfterCutoff | dateAfterCutoff | dateNotBeforeCutoff | unknown -/
+def removeGuard : String := "dateBeforeCutoff"
+
+/-- RemoveMessage calls in DoScan and its callback (unexported helpers followed) -/
 def removeCalls : Nat := 1
 
-/-- a RemoveMessage call in the else branch (messages not before the cutoff) -/
-def removeInElse : Bool := false
+/-- RemoveMessage is called on the same scanner field VisitMailboxes is called on -/
+def removeOnVisitedStore : Bool := true
 
-/-- non-logging statements executed when RemoveMessage returns an error -/
-def removeErrBranch : String := "err != nil => []"
+/-- mailboxAndIdOfLoopMessage: the arguments are (<loop message>.Mailbox(), <loop message>.ID()) -/
+def removeArgs : String := "mailboxAndIdOfLoopMessage"
 
-/-- every return statement of the callback as value@select-case -/
-def callbackReturns : List String := ["false@<-ctx.Done()", "true@-"]
+/-- what is reachable under `RemoveMessage's error != nil`: logOnly (logging chains, plain continue) | ignored | leavesLoop | returns | other | unknown -/
+def removeErrEffect : String := "logOnly"
 
-/-- every select of DoScan: (has a ctx.Done case, body of that case without logging, the other cases) -/
-def doScanSelects : List (Bool × String × String) := [(true, "return false", "<-time.After(rs.retentionSleep)")]
+/-- the set of return statements of the callback as value@where, where = plain (unconditional) | ctxDoneCase (directly in a select case receiving from <context.Context parameter>.Done()) | otherCase | defaultCase | conditional -/
+def callbackReturns : List String := ["false@ctxDoneCase", "true@plain"]
 
-/-- blocking operations of DoScan outside a select (receive, send, Sleep, Wait, Lock) -/
-def doScanBareBlocking : List String := []
+/-- every blocking operation of DoScan and its callback: (kind, what the ctx.Done() case does, the other cases); kind = select | recv | send | sleep | wgWait | lock | join; sleepField = the field initialised from <config>.RetentionSleep -/
+def doScanWaits : List (String × String × List String) := [("select", "returnFalse", ["timeAfter:sleepField"])]
 
-/-- every select of Start -/
-def startSelects : List (Bool × String × String) := [(true, "break retentionLoop", "<-time.After(dur)"), (true, "break retentionLoop", "default")]
+/-- every blocking operation of Start, in order; breakLoop = a break labelled with Start's outermost loop; minuteMinusSince = time.Minute - time.Since(x) -/
+def startWaits : List (String × String × List String) := [("select", "breakLoop", ["timeAfter:minuteMinusSince"]), ("select", "breakLoop", ["default"])]
 
-/-- blocking operations of Start outside a select -/
-def startBareBlocking : List String := []
+/-- the relation to literal 0 under which Start leaves before its loop: leZero | ltZero | eqZero | unknown -/
+def disableCond : String := "leZero"
 
-/-- condition of the first `if` of Start -/
-def disableCond : Option String := some "rs.retentionPeriod <= 0"
+/-- the field of that test is the field initialised from <config>.RetentionPeriod -/
+def disableIsConfigPeriod : Bool := true
 
-/-- its body without logging -/
-def disableBody : String := "close(rs.retentionShutdown); return"
+/-- what Start does under that condition, logging ignored: closeJoinChanThenReturn (close of the channel field Join receives from, then return) | returnWithoutClose | unknown -/
+def disablePath : String := "closeJoinChanThenReturn"
 
-/-- statements of retentionLoop -/
-def loopShape : List String := ["since := time.Since(start)", "if since < time.Minute", "start = time.Now()", "scan", "select"]
+/-- loops in Start -/
+def startLoops : Nat := 1
 
-/-- the test that makes the loop wait -/
-def throttleCond : String := "since < time.Minute"
+/-- Start's loop has no condition -/
+def loopInfinite : Bool := true
 
-/-- number of DoScan calls in Start -/
+/-- the unconditional steps of one turn of Start's loop in order (logging, pure local definitions, select-case bodies and the scan's error branch left out): since = x := time.Since(..) | throttleWait = a select under one condition | stamp = <stamp> = time.Now() | scan = DoScan(<ctx parameter>) | poll = unconditional select with default | wait | other -/
+def loopOrder : List String := ["since", "throttleWait", "stamp", "scan", "poll"]
+
+/-- sinceStampLtMinute: the throttle select is entered iff time.Since(<stamp>) < time.Minute, <stamp> being a local set to time.Now() before the loop and re-set only by the `stamp` step -/
+def throttleGuard : String := "sinceStampLtMinute"
+
+/-- what Start does with DoScan's error: logOnly | ignored | leavesLoop | returns | other | unknown -/
+def scanErrEffect : String := "logOnly"
+
+/-- DoScan calls in Start -/
 def startScanCalls : Nat := 1
+
+/-- closeJoinChan: after the loop Start only logs and closes the channel field Join receives from -/
+def afterLoop : String := "closeJoinChan"
+
+/-- close(<that field>) calls in Start, deferred ones included -/
+def closesOfJoinChan : Nat := 2
+
+/-- blocking operations of Join: recvField = a receive from a scanner field (the Join channel) -/
+def joinWaits : List String := ["recvField"]
 
 end Ibx.Gen.Retention
